@@ -123,25 +123,29 @@ def skipToComma : Str → Str
   | [] => []
   | c :: r => if c == ',' then c :: r else skipToComma r
 
-/-- the `while 0 <= pos < end` loop on the suffix `forwarded[pos:]`; `cur` = `parsed_element`; the result is what is
-    appended to `elements` from here on (including the final `if parsed_element: elements.append`).
+/-- one iteration of the `while 0 <= pos < end` loop at `forwarded[pos:] = c :: r`; `cur` = `parsed_element`.
+    Result: (the element appended to `elements` in this iteration, if any; the new suffix; `need_separator`; `parsed_element`).
+    `forwarded.find(',', pos)` is taken from `r`: in both places `forwarded[pos]` is known not to be a comma. -/
+def step (c : Char) (r : Str) (needSep : Bool) (cur : Option Fwd) : Option Fwd × Str × Bool × Option Fwd :=
+  match matchPair (c :: r) with
+  | some (name, value, rest) =>
+    if needSep then (none, skipToComma r, needSep, cur)       -- bad syntax here, skip to next comma
+    else (none, rest, true, some (setField (cur.getD {}) (lowerS name) (procValue value)))
+  | none =>
+    if c == ',' then (cur, r, false, none)                     -- next forwarded-element
+    else if c == ';' then (none, r, false, cur)                -- next forwarded-pair
+    else if c == ' ' || c == '\t' then (none, r, needSep, cur)
+    else (none, skipToComma r, needSep, cur)                   -- bad syntax here, skip to next comma
+
+/-- the loop; the result is what is appended to `elements` from here on (including the final
+    `if parsed_element: elements.append(parsed_element)`).
     Every iteration moves `pos` forward, so `fuel = len(forwarded)` iterations are enough (`parseGo_fuel`). -/
 def parseGo : Nat → Str → Bool → Option Fwd → List Fwd
   | 0, _, _, cur => cur.toList
   | _ + 1, [], _, cur => cur.toList
   | fuel + 1, c :: r, needSep, cur =>
-    match matchPair (c :: r) with
-    | some (name, value, rest) =>
-      if needSep then parseGo fuel (skipToComma r) needSep cur
-      else parseGo fuel rest true (some (setField (cur.getD {}) (lowerS name) (procValue value)))
-    | none =>
-      if c == ',' then
-        match cur with
-        | some e => e :: parseGo fuel r false none
-        | none => parseGo fuel r false none
-      else if c == ';' then parseGo fuel r false cur
-      else if c == ' ' || c == '\t' then parseGo fuel r needSep cur
-      else parseGo fuel (skipToComma r) needSep cur
+    let st := step c r needSep cur
+    st.1.toList ++ parseGo fuel st.2.1 st.2.2.1 st.2.2.2
 
 /-- `_parse_forwarded_header` -/
 def parseForwarded (s : Str) : List Fwd := parseGo s.length s false none
